@@ -135,6 +135,10 @@ func checkC14(c *core.Check) {
 		"panics are observed with recover() around ServeHTTP and around Parse(); 'exactly one response' = exactly one WriteHeader (an implicit one counts)",
 		"absence of panics is observed on the explored inputs, not proven (exploration); Go's coverage-guided fuzzer is not used in this build - the byte-level part is seeded random generation near the declared shapes",
 	}
+	plans := streamPlans(c, false)
+	if plans == nil {
+		return
+	}
 	thorough := c.Tier == "thorough"
 	if thorough {
 		// "always answers" at the design level: under weak fairness every received request reaches "done" (liveness,
@@ -224,6 +228,7 @@ func checkC14(c *core.Check) {
 					rc := valid
 					rc.ID, rc.Body, rc.HasBody = newID(), string(bs), true
 					rc.Chunked = len(g.Cases)%2 == 0
+					rc.Reads = plans[len(g.Cases)%len(plans)]
 					g.Cases = append(g.Cases, rc)
 					info[rc.ID] = rc
 				}
